@@ -228,6 +228,7 @@ EPOLL_PATTERNS = [
     (r"Box::from_raw\(\s*stream_ptr\s*\)", "take stream"),
     (r"Box::from_raw\(\s*[\w.]+ as \*mut Handle\s*\)", "free handle"),
     (r"Box::from_raw\(\s*ptr as \*mut Handle\s*\)", "free handle"),
+    (r"Box::from_raw\(\s*\w*handle\w*\s*\)", "free handle"),        # an already typed `*mut Handle` (helper parameter)
     (r"Box::into_raw\(\s*Box::new\(\s*\w+\s*\)\s*\)", "box stream"),
     (r"Box::into_raw\(\s*\w+\s*\)", "box handle"),
     (r"connection_teardown_hook", "teardown"),
@@ -396,6 +397,15 @@ def lean_list(name, toks):
     return f"def {name} : List String := [" + ", ".join('"' + t.replace('"', "'") + '"' for t in toks) + "]"
 
 
+def soft(f, *a):
+    """extraction of a SOFT skeleton group (server/mod.rs request handling, ResponseHandle, BodyReader — DESIGN.md §17.3): a function
+    that was renamed, split or moved makes the group unreadable, which is a difference like any other, not a translator failure"""
+    try:
+        return f(*a)
+    except (ExtractError, IndexError, AttributeError):
+        return ["<function not found>"]
+
+
 def main():
     tp = strip_hooks(strip_comments(open(os.path.join(REPO, "src/threadpool.rs")).read()))
     ep = strip_hooks(strip_comments(open(os.path.join(REPO, "src/server/epoll.rs")).read()))
@@ -404,9 +414,13 @@ def main():
     m = re.search(r"impl Worker\s*\{", tp)
     if not m:
         raise ExtractError("impl Worker")
-    L.append(lean_list("poolWorker", pool_canon(skeleton(fn_body(tp[m.end():], "new"), POOL_PATTERNS))))
-    L.append(lean_list("poolExecute", pool_canon(skeleton(fn_body(tp, "execute"), POOL_PATTERNS))))
-    L.append(lean_list("poolDrop", pool_canon(skeleton(fn_body(tp, "drop"), POOL_PATTERNS))))
+    # helper functions of the same file are inlined at their call sites (a worker loop moved into a struct with `next_job()` /
+    # `run()`, a `close_channel()` helper …): what counts is which actions happen under the lock and in which order
+    pfns = all_fns(tp)
+    pkeep = {"new", "execute", "drop"}
+    L.append(lean_list("poolWorker", pool_canon(skeleton(inline_helpers(fn_body(tp[m.end():], "new"), pfns, pkeep), POOL_PATTERNS))))
+    L.append(lean_list("poolExecute", pool_canon(skeleton(inline_helpers(fn_body(tp, "execute"), pfns, pkeep), POOL_PATTERNS))))
+    L.append(lean_list("poolDrop", pool_canon(skeleton(inline_helpers(fn_body(tp, "drop"), pfns, pkeep), POOL_PATTERNS))))
     m = re.search(r"impl Task for EpollJob\s*\{", ep)
     if not m:
         raise ExtractError("impl Task for EpollJob")
@@ -423,26 +437,30 @@ def main():
     # the same actions, labelled by code site, in the order in which the model lists its annotated steps
     L.append(lean_list("epollActions", site_actions(job, serve)))
     sv = strip_hooks(strip_comments(open(os.path.join(REPO, "src/server/mod.rs")).read()))
-    L.append(lean_list("serverHandleOne", skeleton(fn_body(sv, "handle_one_request"), SERVER_PATTERNS)))
-    L.append(lean_list("serverHandleConnection", skeleton(fn_body(sv, "handle_connection"), SERVER_PATTERNS)))
-    L.append(lean_list("serverServe", skeleton(fn_body(sv, "serve"), SERVER_PATTERNS)))
-    L.append(lean_list("serverServeThreaded", skeleton(fn_body(sv, "serve_threaded"), SERVER_PATTERNS)))
+    sk = lambda src, fn, pats: soft(lambda: skeleton(fn_body(src, fn), pats))
+    blk = lambda src, rx, what: soft(lambda: impl_block(src, rx, what))
+    L.append(lean_list("serverHandleOne", sk(sv, "handle_one_request", SERVER_PATTERNS)))
+    L.append(lean_list("serverHandleConnection", sk(sv, "handle_connection", SERVER_PATTERNS)))
+    L.append(lean_list("serverServe", sk(sv, "serve", SERVER_PATTERNS)))
+    L.append(lean_list("serverServeThreaded", sk(sv, "serve_threaded", SERVER_PATTERNS)))
     # ResponseHandle: every sending method records the close token before it prints; ok* delegate to send*
-    rh = impl_block(sv, r"impl<'s>\s*ResponseHandle<'s>\s*\{", "impl ResponseHandle")
-    L.append(lean_assoc("handleSkeleton", [(mth, skeleton(fn_body(rh, mth), HANDLE_PATTERNS)) for mth in HANDLE_METHODS]))
+    rh = blk(sv, r"impl<'s>\s*ResponseHandle<'s>\s*\{", "impl ResponseHandle")
+    rh = rh if isinstance(rh, str) else ""
+    L.append(lean_assoc("handleSkeleton", [(mth, sk(rh, mth, HANDLE_PATTERNS)) for mth in HANDLE_METHODS]))
     # body_reader.rs: reader selection, failure flag, drop-drain
     br = strip_hooks(strip_comments(open(os.path.join(REPO, "src/body_reader.rs")).read()))
-    rd = impl_block(br, r"impl<R: Read>\s*Read for BodyReader<'_, R>\s*\{", "impl Read for BodyReader")
-    bf = impl_block(br, r"impl<R: Read>\s*BufRead for BodyReader<'_, R>\s*\{", "impl BufRead for BodyReader")
-    dr = impl_block(br, r"impl<R: Read>\s*Drop for BodyReader<'_, R>\s*\{", "impl Drop for BodyReader")
+    rd = blk(br, r"impl<R: Read>\s*Read for BodyReader<'_, R>\s*\{", "impl Read for BodyReader")
+    bf = blk(br, r"impl<R: Read>\s*BufRead for BodyReader<'_, R>\s*\{", "impl BufRead for BodyReader")
+    dr = blk(br, r"impl<R: Read>\s*Drop for BodyReader<'_, R>\s*\{", "impl Drop for BodyReader")
+    rd, bf, dr = (x if isinstance(x, str) else "" for x in (rd, bf, dr))
     L.append(lean_assoc("bodySkeleton", [
-        ("from_request", skeleton(fn_body(br, "from_request"), BODY_PATTERNS)),
-        ("from_response", skeleton(fn_body(br, "from_response"), BODY_PATTERNS)),
-        ("note", skeleton(fn_body(br, "note"), BODY_PATTERNS)),
-        ("drain", skeleton(fn_body(br, "drain"), BODY_PATTERNS)),
-        ("read", skeleton(fn_body(rd, "read"), BODY_PATTERNS)),
-        ("fill_buf", skeleton(fn_body(bf, "fill_buf"), BODY_PATTERNS)),
-        ("drop", skeleton(fn_body(dr, "drop"), BODY_PATTERNS)),
+        ("from_request", sk(br, "from_request", BODY_PATTERNS)),
+        ("from_response", sk(br, "from_response", BODY_PATTERNS)),
+        ("note", sk(br, "note", BODY_PATTERNS)),
+        ("drain", sk(br, "drain", BODY_PATTERNS)),
+        ("read", sk(rd, "read", BODY_PATTERNS)),
+        ("fill_buf", sk(bf, "fill_buf", BODY_PATTERNS)),
+        ("drop", sk(dr, "drop", BODY_PATTERNS)),
     ]))
     L.append("\nend Khttp.Gen\n")
     text = "\n".join(L)
